@@ -2,82 +2,266 @@ package props
 
 import (
 	"fmt"
-	"go/ast"
 	"go/types"
+	"sort"
 	"strings"
 
-	"mpcverif/internal/dispatch"
+	"golang.org/x/tools/go/ssa"
+
+	"mpcverif/internal/flow"
 	"mpcverif/internal/load"
 	"mpcverif/internal/report"
 )
 
 // C15chi: both ends of the consistency check weigh the same rows with the same pseudo-random coefficients.
+//
+// The facts are read from the SSA form of the two role functions with their module helpers flattened at the
+// call sites (a check moved into `verify`, accumulators kept in the sender, a shared `accumulate` helper
+// change nothing): the ordered sequence of coefficient draws (prgLabels) and inner products
+// (vectorInnPrdtSumNoRed), each product classified by which extension batch of the role its vector comes
+// from, and where the seed of the coefficient stream comes from.
 func C15chi(p *load.Program, run *report.Run) {
-	run.Rule("chi-stream-agreement", "sender and receiver seed the coefficient stream with the value the receiver sent, and consume it in the same order: the coefficients drawn for the result rows multiply the result rows, those drawn afterwards multiply the extra rows (the stride of the draws is irrelevant, the stream is sequential)")
-	_, fs := dispatch.FindFunc(p, "ot", "IKNPSender", "Send")
-	_, fr := dispatch.FindFunc(p, "ot", "IKNPReceiver", "Receive")
-	if fs == nil || fr == nil {
-		run.Undecided("chi-stream-agreement", "ot.IKNPSender.Send/IKNPReceiver.Receive", "", "function not found")
-		return
-	}
-	type draw struct{ seedFrom, target string }
-	extract := func(fd *ast.FuncDecl) (seed string, seq []string) {
-		prgSeed := ""
-		var pending string // the buffer last filled by prgLabels
-		ast.Inspect(fd.Body, func(n ast.Node) bool {
-			switch t := n.(type) {
-			case *ast.AssignStmt:
-				if len(t.Rhs) == 1 {
-					if c, ok := t.Rhs[0].(*ast.CallExpr); ok {
-						_, name, _ := callName(c)
-						if name == "newPrg" && len(c.Args) == 1 {
-							prgSeed = types.ExprString(c.Args[0])
-						}
-						if name == "vectorInnPrdtSumNoRed" && len(c.Args) == 2 {
-							if baseName(c.Args[0]) == pending {
-								seq = append(seq, baseName(c.Args[1]))
-							} else {
-								seq = append(seq, "stale-coefficients:"+baseName(c.Args[1]))
-							}
-							pending = "" // coefficients are used once
-						}
-					}
-				}
-			case *ast.ExprStmt:
-				if c, ok := t.X.(*ast.CallExpr); ok {
-					if _, name, _ := callName(c); name == "prgLabels" && len(c.Args) == 2 {
-						pending = baseName(c.Args[1])
-					}
-				}
-			}
-			return true
-		})
-		// where the seed comes from
-		ast.Inspect(fd.Body, func(n ast.Node) bool {
-			c, ok := n.(*ast.CallExpr)
-			if !ok {
-				return true
-			}
-			_, name, _ := callName(c)
-			if (name == "ReceiveLabel" || name == "SendLabel") && len(c.Args) >= 1 && strings.TrimPrefix(types.ExprString(c.Args[0]), "&") == prgSeed {
-				seed = name
-			}
-			return true
-		})
-		return
-	}
-	seedS, seqS := extract(fs)
-	seedR, seqR := extract(fr)
+	run.Rule("chi-stream-agreement", "sender and receiver seed the coefficient stream with the value the receiver sent, and consume it in the same order: the coefficients drawn for the rows of the first extension batch multiply those rows, the ones drawn afterwards multiply the rows of the check batch (helpers of the module are followed; the stride of the draws is irrelevant, the stream is sequential)")
+	fs, e1 := p.Method("ot", "IKNPSender", "Send")
+	fr, e2 := p.Method("ot", "IKNPReceiver", "Receive")
 	key := "ot.IKNPSender.Send/IKNPReceiver.Receive/chi"
+	if e1 != nil || e2 != nil {
+		run.Undecided("chi-stream-agreement", key, "", "function not found")
+		return
+	}
+	type event struct {
+		pos  []int // source positions of the call chain, for ordering
+		text string
+	}
+	extract := func(role *ssa.Function, ext string) (seq []string, seedVia string) {
+		// the extension calls of the role, in source order
+		var batches []*ssa.Call
+		for _, b := range role.Blocks {
+			for _, ins := range b.Instrs {
+				if c, ok := ins.(*ssa.Call); ok && c.Call.StaticCallee() != nil && c.Call.StaticCallee().Name() == ext {
+					batches = append(batches, c)
+				}
+			}
+		}
+		sort.Slice(batches, func(i, j int) bool { return batches[i].Pos() < batches[j].Pos() })
+		rootOf := func(v ssa.Value) ssa.Value {
+			for d := 0; d < 8; d++ {
+				switch t := v.(type) {
+				case *ssa.Slice:
+					v = t.X
+					continue
+				case *ssa.UnOp:
+					if al, ok := t.X.(*ssa.Alloc); ok {
+						return al
+					}
+				}
+				break
+			}
+			return v
+		}
+		type bindT = struct {
+			callee *ssa.Function
+			call   ssa.CallInstruction
+		}
+		var curBinds []bindT
+		resolve := func(v ssa.Value) ssa.Value {
+			r := rootOf(v)
+			for d := 0; d < 4; d++ {
+				prm, ok := r.(*ssa.Parameter)
+				if !ok {
+					break
+				}
+				moved := false
+				for _, bd := range curBinds {
+					for i, cp := range bd.callee.Params {
+						if cp == prm && i < len(bd.call.Common().Args) {
+							r = rootOf(bd.call.Common().Args[i])
+							moved = true
+						}
+					}
+				}
+				if !moved {
+					break
+				}
+			}
+			return r
+		}
+		var classOf func(x *flow.XSlice, vec ssa.Value) string
+		classOf = func(x *flow.XSlice, vec ssa.Value) string {
+			// rows appended to rows: the vector is the first followed by the second
+			if r := resolve(vec); r != nil {
+				if ap, ok := r.(*ssa.Call); ok {
+					if bi, ok := ap.Call.Value.(*ssa.Builtin); ok && bi.Name() == "append" && len(ap.Call.Args) == 2 {
+						part := func(v ssa.Value) string {
+							x2 := flow.NewXSlice(load.InModule)
+							for _, bd := range curBinds {
+								x2.Enter(bd.callee, bd.call)
+							}
+							x2.Add(v)
+							return classOf(x2, v)
+						}
+						return part(ap.Call.Args[0]) + "+" + part(ap.Call.Args[1])
+					}
+				}
+			}
+			var hit []string
+			for i, bc := range batches {
+				in := x.Set[bc]
+				// the extension fills a vector it is handed: the same storage is an argument of the batch call
+				for _, a := range bc.Call.Args {
+					if r := rootOf(a); r == resolve(vec) {
+						if _, isSlice := a.Type().Underlying().(*types.Slice); isSlice {
+							in = true
+						}
+					}
+				}
+				if in {
+					hit = append(hit, fmt.Sprintf("batch%d", i+1))
+				}
+			}
+			if len(hit) == 0 {
+				return "other"
+			}
+			return strings.Join(hit, "&")
+		}
+		var events []event
+		var walk func(g *ssa.Function, chain []int, binds []struct {
+			callee *ssa.Function
+			call   ssa.CallInstruction
+		}, depth int)
+		walk = func(g *ssa.Function, chain []int, binds []struct {
+			callee *ssa.Function
+			call   ssa.CallInstruction
+		}, depth int) {
+			for _, b := range g.Blocks {
+				for _, ins := range b.Instrs {
+					c, ok := ins.(*ssa.Call)
+					if !ok || c.Call.StaticCallee() == nil {
+						continue
+					}
+					callee := c.Call.StaticCallee()
+					at := append(append([]int{}, chain...), int(c.Pos()))
+					switch callee.Name() {
+					case "prgLabels":
+						events = append(events, event{at, "draw"})
+						continue
+					case "newPrg":
+						if depth == 0 && len(c.Call.Args) == 1 && !strings.HasSuffix(c.Call.Args[0].Type().String(), "/ot.Label") {
+							continue
+						}
+						if blockReaches(c.Block(), c.Block()) {
+							events = append(events, event{at, "seed(in a loop)"})
+						} else {
+							events = append(events, event{at, "seed"})
+						}
+						if len(c.Call.Args) == 1 {
+							x := flow.NewXSlice(load.InModule)
+							for _, bd := range binds {
+								x.Enter(bd.callee, bd.call)
+							}
+							x.Add(c.Call.Args[0])
+							for in := range x.Set {
+								if ci, ok := in.(ssa.CallInstruction); ok && ci.Common().IsInvoke() {
+									switch ci.Common().Method.Name() {
+									case "ReceiveLabel", "SendLabel":
+										seedVia = ci.Common().Method.Name()
+									}
+								}
+								// the seed value is also what is handed to SendLabel (by value)
+								if v, ok := in.(ssa.Value); ok && v.Referrers() != nil {
+									for _, r := range *v.Referrers() {
+										if ci, ok := r.(ssa.CallInstruction); ok && ci.Common().IsInvoke() && ci.Common().Method.Name() == "SendLabel" {
+											seedVia = "SendLabel"
+										}
+									}
+								}
+							}
+						}
+						continue
+					case "vectorInnPrdtSumNoRed":
+						if len(c.Call.Args) == 2 {
+							x := flow.NewXSlice(load.InModule)
+							for _, bd := range binds {
+								x.Enter(bd.callee, bd.call)
+							}
+							x.Add(c.Call.Args[1])
+							curBinds = curBinds[:0]
+							for _, bd := range binds {
+								curBinds = append(curBinds, bindT{bd.callee, bd.call})
+							}
+							events = append(events, event{at, "weigh(" + classOf(x, c.Call.Args[1]) + ")"})
+						}
+						continue
+					}
+					if load.InModule(callee) && callee.Blocks != nil && depth < 2 && callee.Name() != ext && callee.Pkg == role.Pkg {
+						nb := append(append([]struct {
+							callee *ssa.Function
+							call   ssa.CallInstruction
+						}{}, binds...), struct {
+							callee *ssa.Function
+							call   ssa.CallInstruction
+						}{callee, c})
+						walk(callee, at, nb, depth+1)
+					}
+				}
+			}
+		}
+		walk(role, nil, nil, 0)
+		sort.SliceStable(events, func(i, j int) bool {
+			a, b := events[i].pos, events[j].pos
+			for k := 0; k < len(a) && k < len(b); k++ {
+				if a[k] != b[k] {
+					return a[k] < b[k]
+				}
+			}
+			return len(a) < len(b)
+		})
+		for _, e := range events {
+			seq = append(seq, e.text)
+		}
+		return
+	}
+	seqS, seedS := extract(fs, "send")
+	seqR, seedR := extract(fr, "receive")
 	run.Count("chi-draw-groups", len(seqS)+len(seqR))
+	// the rows weighed, in order: a product over rows a followed by rows b is the product over a then over b
+	// (the coefficient stream is sequential, so how the draws are grouped does not matter)
+	weighs := func(seq []string) (out []string) {
+		for _, s := range seq {
+			if strings.HasPrefix(s, "weigh(") {
+				for _, part := range strings.Split(strings.TrimSuffix(strings.TrimPrefix(s, "weigh("), ")"), "+") {
+					out = append(out, "weigh("+part+")")
+				}
+			}
+		}
+		return
+	}
+	shape := func(seq []string) string {
+		// seed once, then draws and products alternating with a draw before every product
+		if len(seq) == 0 || seq[0] != "seed" {
+			return "no single seeding of the stream before the draws"
+		}
+		for i, s := range seq[1:] {
+			if s == "seed" || strings.HasPrefix(s, "seed(") {
+				return "the stream is seeded again"
+			}
+			if strings.HasPrefix(s, "weigh") && (i == 0 || seq[i] != "draw") {
+				return "a product without coefficients drawn for it"
+			}
+		}
+		return ""
+	}
 	switch {
 	case seedS != "ReceiveLabel" || seedR != "SendLabel":
 		run.Violate("chi-stream-agreement", key, p.Rel(fs.Pos()), fmt.Sprintf("the stream is seeded from a value the sender got by %q and the receiver by %q: the two streams differ", seedS, seedR), nil)
-	case len(seqS) == 0 || fmt.Sprint(seqS) != fmt.Sprint(seqR):
-		run.Violate("chi-stream-agreement", key, p.Rel(fs.Pos()), fmt.Sprintf("coefficients weigh %v at the sender and %v at the receiver", seqS, seqR), nil)
+	case len(weighs(seqS)) == 0 || fmt.Sprint(weighs(seqS)) != fmt.Sprint(weighs(seqR)):
+		run.Violate("chi-stream-agreement", key, p.Rel(fs.Pos()), fmt.Sprintf("the sender's check runs %v, the receiver's %v: the coefficients do not weigh the same rows on both sides", seqS, seqR), nil)
+	case shape(seqS) != "" || shape(seqR) != "":
+		run.Violate("chi-stream-agreement", key, p.Rel(fs.Pos()), fmt.Sprintf("the sender's check runs %v, the receiver's %v: %s%s — one stream is seeded once and every group of rows gets coefficients drawn for it from that stream; a stream restarted or coefficients used twice let two alterations cancel", seqS, seqR, shape(seqS), shape(seqR)), nil)
+	case fmt.Sprint(weighs(seqS)) != "[weigh(batch1) weigh(batch2)]":
+		run.Violate("chi-stream-agreement", key, p.Rel(fs.Pos()), fmt.Sprintf("the check weighs %v, expected the rows of the first extension batch and then those of the check batch", weighs(seqS)), nil)
 	default:
-		run.OK("chi-stream-agreement", key, p.Rel(fs.Pos()), strings.Join(seqS, ", then "))
+		run.OK("chi-stream-agreement", key, p.Rel(fs.Pos()), strings.Join(seqS, ", "))
 	}
 	run.Floor("chi-draw-groups", 4)
-	_ = load.Module
 }
